@@ -47,3 +47,34 @@ func CoordsOK(p *secp256k1.Point) bool {
 	rhs := ref.AddM(ref.MulM(ref.MulM(x, x, P), x, P), ref.MulM(big.NewInt(7), z3, P), P)
 	return lhs.Cmp(rhs) == 0
 }
+
+// SiblingRepresentative returns a point object whose raw X and Y coordinates
+// are the affine x and y of p but whose Z is not 1: for fixed (X, Y) = (x, y)
+// the projective curve equation y^2 Z = x^3 + 7 Z^3 is a cubic in Z with the
+// root 1 and, when 28y^2 - 147 is a square, two more,
+// Z' = (-7 +- sqrt(28y^2 - 147)) / 14.  (x, y, Z') is a valid representative of
+// the DIFFERENT group element (x/Z', y/Z'), which is returned as well.  Code
+// that recognises a point by some of its raw coordinates confuses the two.
+func SiblingRepresentative(p ref.Pt, second bool) (*secp256k1.Point, ref.Pt, bool) {
+	if p.Inf {
+		return nil, ref.Pt{}, false
+	}
+	disc := ref.Mod(new(big.Int).Sub(new(big.Int).Mul(big.NewInt(28), ref.MulM(p.Y, p.Y, ref.P)), big.NewInt(147)), ref.P)
+	rt, ok := ref.SqrtP(disc)
+	if !ok || rt.Sign() == 0 {
+		return nil, ref.Pt{}, false
+	}
+	if second {
+		rt = ref.NegM(rt, ref.P)
+	}
+	z := ref.MulM(ref.Mod(new(big.Int).Sub(rt, big.NewInt(7)), ref.P), ref.Inv0(big.NewInt(14), ref.P), ref.P)
+	if z.Sign() == 0 || z.Cmp(big.NewInt(1)) == 0 {
+		return nil, ref.Pt{}, false
+	}
+	zi := ref.Inv0(z, ref.P)
+	q := ref.Pt{X: ref.MulM(p.X, zi, ref.P), Y: ref.MulM(p.Y, zi, ref.P)}
+	if !q.Valid() {
+		panic("lib.SiblingRepresentative: derived point off the curve")
+	}
+	return secp256k1.VerifNewPointProjectiveUnchecked(Fe(p.X), Fe(p.Y), Fe(z)), q, true
+}
